@@ -26,7 +26,7 @@ TYPES = ["none", "pec", "pmc", "periodic", "bloch"]
 
 
 def rand_case(rng, quick, i):
-    shape = [rng.randint(2, 4), rng.randint(2, 4), rng.randint(2, 5 if not quick else 4)]
+    shape = [rng.choice([1, 2, 3, 4]), rng.choice([1, 2, 3, 4]), rng.randint(2, 5 if not quick else 4)]      # incl. one-cell (collapsed) axes
     bt, kvec = {}, [0.0, 0.0, 0.0]
     for a, ax in enumerate("xyz"):
         kind = rng.choice(["pair", "pair", "periodic", "bloch", "mix"])
